@@ -221,6 +221,11 @@ func (e *Enc) instr(cur *cursor, ins ssa.Instruction) {
 		n := e.asTerm(e.value(fc, x.Len))
 		c := e.asTerm(e.value(fc, x.Cap))
 		e.safety(cur, "makeneg", fmt.Sprintf("(and (<= 0 %s) (<= %s %s))", n, n, c), x.Pos(), "make: 0 <= len <= cap")
+		if e.contract != nil {
+			for _, ab := range e.contract.AllocBounds {
+				e.oblige(cur.guard, "makecap", fmt.Sprintf("%s#%d", ab.Label, e.ordinal("makecap:"+ab.Label)), fmt.Sprintf("(<= %s %s)", c, ab.N), ab.Props, x.Pos(), "make: capacity at most "+ab.N+" ("+ab.Label+")")
+			}
+		}
 		a := e.allocAddr(cur)
 		el := x.Type().Underlying().(*types.Slice).Elem()
 		e.zeroFill(cur, a, el)
